@@ -3,33 +3,45 @@
 and write seeded/MATRIX.md from the confirmation and detection logs."""
 import json, os, re, shutil, sys
 SRC, DST = "/tmp/seedout", "/verif/seeded"
+SOURCES = [("/tmp/seedout", ""), ("/tmp/seedout2", "r2-")]
 confirm = {}
 for l in open("/tmp/confirm.log"):
     f = l.split()
     if f:
         confirm[f[0]] = " ".join(f[1:])
-for extra in ("/tmp/confirm_extra.log",):
+for extra in ("/tmp/confirm_extra.log", "/tmp/confirm2.log"):
     if os.path.exists(extra):
         for l in open(extra):
             f = l.split()
             if f:
                 confirm[f[0]] = " ".join(f[1:])
 matrix = {}
-if os.path.exists("/tmp/matrix.log"):
-    for l in open("/tmp/matrix.log"):
-        f = l.split()
-        if len(f) >= 3:
-            matrix.setdefault(f[0], []).append(" ".join(f[1:]))
+for ml in ("/tmp/matrix.log", "/tmp/matrix4.log"):
+    if os.path.exists(ml):
+        for l in open(ml):
+            f = l.split()
+            if len(f) >= 3:
+                matrix.setdefault(f[0], []).append(" ".join(f[1:]))
+first_round2 = {}
+for ml in ("/tmp/matrix2.log", "/tmp/matrix3.log"):
+    if os.path.exists(ml):
+        for l in open(ml):
+            f = l.split()
+            if len(f) >= 3:
+                first_round2[f[0]] = " ".join(f[1:])
 os.makedirs(DST, exist_ok=True)
 rows = []
-for prop in sorted(os.listdir(SRC)):
+for SRC, tagp in SOURCES:
+  if not os.path.isdir(SRC):
+    continue
+  for prop in sorted(os.listdir(SRC)):
     if not re.match(r"^C\d\d$", prop):
         continue
     for n in sorted(os.listdir(os.path.join(SRC, prop))):
         d = os.path.join(SRC, prop, n)
         if not os.path.isfile(os.path.join(d, "patch.diff")):
             continue
-        sid = "%s-%s" % (prop, n)
+        sid = "%s-%s%s" % (prop, tagp, n)
         out = os.path.join(DST, sid)
         os.makedirs(out, exist_ok=True)
         for f in ("patch.diff", "demo.c", "run.sh", "meta.txt"):
@@ -42,6 +54,8 @@ for prop in sorted(os.listdir(SRC)):
                 "confirmed_by": "tools/confirm_seed.sh in a fresh worktree of /repo HEAD: demo exit code on the clean tree, with the patch, pinned tests completed, lines mentioning 'fail'",
                 "confirmation": confirm.get(d, "not re-run"),
                 "detected_by_quick_checks": matrix.get(d, [])}
+        if d in first_round2 and "rc=0" in first_round2[d]:
+            meta["note"] = "missed by the quick check as it stood when this change was written (%s); detected after the strengthening described in DESIGN.md section 5" % first_round2[d]
         if sid == "C07-2":
             meta["note"] = "valid against the pinned commit a1a994a (16/16 tests pass there, see check.log of the author); after fix 75766a4 changed compressed sizes the pinned igzip_rand_test trips over it as well"
         if sid == "C07-1":
